@@ -58,6 +58,11 @@ def reservation_scope(namespace, binding):
     namespaces = {namespace}
 
     for node in binding.references:
+        if isinstance(node, ast.Name) and isinstance(getattr(node, '_parent', None), ast.NamedExpr):
+            # An assignment expression target binds in the enclosing function or module namespace,
+            # but it is mentioned inside the comprehension namespaces that contain it.
+            node = node._parent
+
         while node is not namespace:
             namespaces.add(node.namespace)
             node = node.namespace
